@@ -15,7 +15,7 @@ RULE = ("all link expressions K + k1*(Li-Lj) [+ k2*(Lm-Ln)] over three labels wi
         "image = reference layout at that base (with a '.word a, c' read-back). Genuinely self-dependent bases, a second '.link' (same "
         "or other file) and '.link' after a leading '. =' must fail with an error. With the base set: '. = .+n' for every n in 0..64 "
         "(constant, decimal, forward-defined) zero-fills n bytes, '. = X' absolute forward, '. = .-n' n in 1..8 and lower absolute "
-        "targets must fail. The directive inside '.repeat' blocks (count 1, count defined at the end, nested); included files with base "
+        "targets must fail, also between the two labels of a base expression in which the base cancels (4 expressions x 4 target spellings x directive first/last). The directive inside '.repeat' blocks (count 1, count defined at the end, nested); included files with base "
         "directives of their own under three placements of the parent's base (differential). state = program; transition = one placement/spelling step; non-trivial = distinct program text")
 ASSUMPTIONS = ["label offsets of the fixed three-label layout (0, 6, 10) are known by construction", "a non-leading '. =' without an earlier base is left open by the property and not generated; base directives inside an included file are generated only under a differential oracle (the placement of the parent's base must not matter), their meaning is not demanded"]
 K = 0o2000
@@ -341,6 +341,14 @@ def check(case, r, tier):
                 judge_fail(r, [("p.mac", text)], text, "skip-backward", "a backward '. =' must be refused")
             text = ".link 2000\nnop\n.blkb 10\n. = %o\n.byte 1\n" % (K + 10 - n)
             judge_fail(r, [("p.mac", text)], text, "skip-backward", "a backward '. =' must be refused")
+        # backward while the base is still being worked out *through* the skip (the base cancels between labels on both sides)
+        for n in (1, 2, 3, 4, 6):
+            for tgt in (".-%o" % n, "s+%o" % (6 - n), ".-bkn", "s+6-bkn"):
+                for expr in ("2000+e-s", "2000+2*<e-s>", "e-s+2000", "2000-<s-e>"):
+                    for place in ("first", "last"):
+                        body = "s: nop\nnop\nnop\n. = %s\ne: nop\n.word s, e\n" % tgt + ("bkn = %o\n" % n if "bkn" in tgt else "")
+                        text = (".link %s\n" % expr + body) if place == "first" else (body + ".link %s\n" % expr)
+                        judge_fail(r, [("p.mac", text)], text, "skip-backward-through-cancelling-base", "a backward '. =' must be refused, also while the base is computed through it")
         # backward to a target below address 0 (which is not the same as forward to 2^16 minus something)
         for n in range(1, 65):
             for pre, at in ((".link 0\nnop\n", 2), (". = 0\nnop\n", 2), (".link 10\n.word 1\n", 0o12), (".link 0\n", 0)):
